@@ -4,8 +4,14 @@ Tie (DESIGN.md §3 C17):
   * settings: model `Ariadne.Settings.getClientSettings/getSchemaSettings` (ordered checks over a file-system /
     environment oracle) vs the real `config.get_client_settings/get_graphql_schema_settings` on configuration dicts
     over a real scratch file system: every single-constraint violation x every valid base configuration, pairs of
-    violations (which check fires first), unknown keys, deprecated section, boolean include_comments, random mixes;
+    violations (which check fires first), unknown keys, deprecated section, boolean include_comments, random mixes,
+    EVERY TOML KIND of value (bool / int / float / str / list / table; True is not 1 is not 1.0 on the wire: `tv_enc`) at
+    every option, every path option x {file, directory, missing, empty} x the flags that change which checks run;
     compared: accepted settings / exception class + message, deprecation warnings, purity of the caller's dict.
+  * sources: model `Ariadne.SourceLoad` (file or directory tree, sorted walk, suffix filter, per-file parse, concatenation;
+    graphql-core's parse as the table of its own verdicts) vs the real `schema.load_graphql_files_from_path` + `parse` on
+    directories whose files are individually invalid but jointly valid (valid documents split at every token boundary).
+  * config file / plugins: `config.get_config_file_path` on real directory chains, `explorer.get_plugins_types` per string.
   * pipeline: model `Ariadne.Pipeline.client/graphqlSchema` (phase order + effect log, graphql-core as oracle) vs the
     real `main.client/main.graphql_schema` in forked children on scratch directories: phase at which the run fails,
     exception class/message, files written (directory snapshot before/after), for invalid schemas (one per graphql-core
@@ -2185,8 +2191,15 @@ def run_settings(ctx: Ctx, st: Optional[LeanStatus], res: Result) -> None:
 def run(ctx: Ctx, st: Optional[LeanStatus]) -> Result:
     res = Result()
     res.rule = ("settings: every single-constraint violation x every valid base configuration x {client, graphqlschema}, harmless rewrites "
-                "(unknown keys, deprecated section, boolean include_comments), seeded pairs/triples of violations and random option mixes, "
-                "all read by the real config functions on a real scratch tree; pipeline: one real run of main.client/main.graphql_schema per "
+                "(unknown keys, deprecated section, boolean include_comments), EVERY TOML KIND (26 values: bool/int/float incl. 1, 0, 1.0, -0.0, "
+                "inf, nan / str / list / table, plus nested scalars- and headers-variants) at EVERY option of every valid base, `tool` and the "
+                "section itself holding a value of every kind, every path option x {file, directory, missing, empty} x the 8 combinations of "
+                "enable_custom_operations/async_client/opentelemetry_client, seeded pairs/triples of violations and random option mixes (with "
+                "values of arbitrary kinds sprinkled in), all read by the real config functions on a real scratch tree; sources: "
+                "load_graphql_files_from_path + parse on directories made by splitting 5 valid documents at every token boundary into two "
+                "files and at seeded pairs of boundaries into three, empty/comment-only/BOM-only neighbours, nested directories, sort-order, "
+                "suffix and dot-file traps, unreadable entries; get_config_file_path on real directory chains; get_plugins_types per plugin "
+                "string; Python's view of TOML values against Model/Toml.lean; pipeline: one real run of main.client/main.graphql_schema per "
                 "plan (one invalid schema per graphql-core SDL/type-system rule, one invalid document per specified rule, syntax errors, "
                 "own refusals, plugin lookup failures, configuration violations, fault pairs, pre-existing target contents). Every case is "
                 "non-trivial; distinct = distinct (configuration) resp. (plan)")
@@ -2224,15 +2237,18 @@ def run(ctx: Ctx, st: Optional[LeanStatus]) -> Result:
     res.extra["invalid_schema_classes"] = len(D.INVALID_SCHEMAS)
     res.extra["invalid_operation_classes"] = len(D.INVALID_OPERATIONS)
     res.oracle_only += [
-        "what graphql-core's parse / build_ast_schema / validate_schema / validate accept is an oracle input of the model (asked from graphql-core directly by the harness); only whether and when ariadne-codegen consults them is modelled",
+        "what graphql-core's parse accepts is a PARAMETER of the model (`parses`); the driver's instance is the table of graphql-core's own verdicts on the texts of the case (each graphql file and the concatenation), asked by the harness directly; build_ast_schema / validate_schema / validate verdicts are oracle inputs; only whether and when ariadne-codegen consults them is modelled",
+        "what importlib finds for a plugin string (module / class / nothing / not a Plugin) is an oracle input asked from importlib directly; toml.load is validated only for the kinds of values (dump/load round trip through the real get_config_dict)",
+        "values of another kind than documented at options the property names no constraint for (flags, plugins, remote_schema_url, remote_schema_verify_ssl) are compared with the model but not judged; a non-str path value is only required to be refused with some ariadne-codegen exception",
         "black/isort refusing an emitted module (late InvalidInput) is an oracle input (`codeError`), exercised only inside finding regions",
         "the introspection transport (remote_schema_url) is C19's subject: modelled as an outcome, not run here",
     ]
     res.assumptions += [
-        "option values are well-typed (strings / booleans / lists of strings / tables of strings) and ASCII; str.isidentifier is abstract in the theorems and its ASCII restriction is what the driver computes (compared with CPython on every run)",
+        "option values are TOML values of any kind (no dates/times); strings are ASCII (printable inside nested values, where Python's repr is re-stated); str.isidentifier is abstract in the theorems and its ASCII restriction is what the driver computes (compared with CPython on every run)",
         "paths in configurations are already normalised (str(Path(p)) == p), so messages quote them verbatim",
-        "the concatenation of individually parsable graphql files parses (joined with a newline) unless there is no file",
-        "plugins resolve or raise PluginImportError; their hooks do not raise (bundled plugins only) and only `process_schema` may replace the schema",
+        "graphql files are readable as UTF-8 and no directory is named like a graphql file (both are modelled - `Content.unreadable` - and compared, but lie outside C17_partial's domain); no symlinks below schema_path / queries_path",
+        "the configuration file name given to get_config_file_path contains no `..` and the directory chain no symlinks (Path.resolve() is then the identity)",
+        "plugin hooks do not raise (bundled plugins only) and only `process_schema` may replace the schema",
     ]
     engine.cleanup_scratch() if os.environ.get("VERIF_CLEAN_SCRATCH") == "1" else None
     return res
